@@ -248,13 +248,19 @@ def spell(rng, d, value=None, force=None):
             forms += [[shorts[0]], [shorts[0] + "=true"]]
         if longs:
             forms += [[longs[0]], [longs[0] + "=true"]]
+        if not forms:
+            return []       # an option declared without any name cannot be written
         return rng.choice(forms) if force is None else forms[force % len(forms)]
     v = value if value is not None else rng.choice(VALUES)
     forms = []
     if shorts:
-        forms += [[shorts[0], v], [shorts[0] + "=" + v], [shorts[0] + v]]
+        forms += [[shorts[0], v], [shorts[0] + "=" + v]]
+        if not v.startswith("="):       # ("-x" + "=v" is the "=" spelling of the value "v")
+            forms.append([shorts[0] + v])
     if longs:
         forms += [[longs[0], v], [longs[0] + "=" + v]]
+    if not forms:
+        return []
     return rng.choice(forms) if force is None else forms[force % len(forms)]
 
 
@@ -406,7 +412,7 @@ MUT_TOKENS = ["-", "--", "-z", "--zz=1", "--zz", "-z=5", "x", "-o=", "--out=", "
 
 def mutate(rng, toks, decls):
     toks = list(toks)
-    opts = [d for d in decls if d["t"] == "opt"]
+    opts = [d for d in decls if d["t"] == "opt" and opt_names(d)]     # (an option declared without a name cannot be written)
     kind = rng.choice(["del", "dup", "ins", "swap", "undecl", "occ", "pos", "q1", "emptyval", "novalue", "dashval", "dashletter", "nearname"])
     if kind == "del" and toks:
         del toks[rng.randrange(len(toks))]
